@@ -34,18 +34,18 @@ func contract(c byte, shard byte) []byte {
 
 // The accounts of the universe.
 var (
-	A0   = user('a', 0)
-	B0   = user('b', 0)
-	C1   = user('c', 1)
-	E2   = user('e', 2)
-	Z1   = user('z', 0xff) // an ordinary account whose address ends in 0xff (shard 255 mod n)
-	S0   = contract('s', 0)
-	S1c  = contract('s', 1)
-	D0   = contract('d', 0)
-	T0   = contract('t', 0) // a contract whose owner is the contract s0
-	M    = contract('m', 0xff)
+	A0  = user('a', 0)
+	B0  = user('b', 0)
+	C1  = user('c', 1)
+	E2  = user('e', 2)
+	Z1  = user('z', 0xff) // an ordinary account whose address ends in 0xff (shard 255 mod n)
+	S0  = contract('s', 0)
+	S1c = contract('s', 1)
+	D0  = contract('d', 0)
+	T0  = contract('t', 0) // a contract whose owner is the contract s0
+	M   = contract('m', 0xff)
 	// M2 is another metachain system contract (the delegation manager's address form)
-	M2 = func() []byte { a := append([]byte{}, vmcommon.ESDTSCAddress...); a[29] = 4; return a }()
+	M2   = func() []byte { a := append([]byte{}, vmcommon.ESDTSCAddress...); a[29] = 4; return a }()
 	Sys  = vmcommon.SystemAccountAddress
 	ESDT = vmcommon.ESDTSCAddress
 )
